@@ -93,6 +93,19 @@ Section Item.
         injection H as <- <-. cbn [cnames]. split; [intros a0 Ha; injection Ha as <-; apply nget_nset_same|].
         split; [intros d Hd; apply nget_nset_other; exact Hd | intro Hx; discriminate].
   Qed.
+  (* a column that has a name keeps it *)
+  Lemma select_item_keeps_named st c e it st' d x :
+    select_item lower reserved st c e = Some (it, st') -> nget (cnames st) d = Some x -> nget (cnames st') d = Some x.
+  Proof.
+    unfold select_item. intros H Hd.
+    destruct (ostr_eqb (inferred e) (nget (cnames st) c)); [injection H as <- <-; exact Hd|].
+    destruct (Nat.eq_dec d c) as [->|Hne].
+    - rewrite Hd in H. injection H as <- <-. cbn [cnames]. apply nget_nset_same.
+    - destruct (nget (cnames st) c) as [y|].
+      + injection H as <- <-. cbn [cnames]. rewrite nget_nset_other; [exact Hd | exact Hne].
+      + destruct (select_item_alias lower expr_prefix reserved (map snd (cnames st)) (counter st)) as [[a n']|]; [|discriminate].
+        injection H as <- <-. cbn [cnames]. rewrite nget_nset_other; [exact Hd | exact Hne].
+  Qed.
 End Item.
 
 (* ---- translate_exclude *)
@@ -156,33 +169,29 @@ Section List_.
         injection H as <- <-. cbn [map creq_cid item_cid]. rewrite (IH _ _ _ _ R). reflexivity.
   Qed.
 
-  (* every requested column that has a name shows it (its own item, at its own position) *)
+  (* every requested column that has a name shows it (its own item, at its own position) -- also when a column is requested twice *)
   Theorem items_loop_names cols : forall st ex items st',
     items_loop lower reserved supported omit_prefix st ex cols = Some (items, st') ->
-    NoDup (map creq_cid cols) ->
     Forall2 (fun r it => match r with
                          | CCol c _ => forall x, nget (cnames st) c = Some x -> item_name it = Some x
                          | CStar _ _ => True
                          end) cols items.
   Proof.
-    induction cols as [|r cols IH]; intros st ex items st' H ND; cbn [items_loop] in H.
+    induction cols as [|r cols IH]; intros st ex items st' H; cbn [items_loop] in H.
     - injection H as <- <-. constructor.
-    - cbn [map] in ND. apply NoDup_cons_iff in ND as [Hnin ND].
-      destruct r as [c e|c table].
+    - destruct r as [c e|c table].
       + destruct (select_item lower reserved st c e) as [[it st1]|] eqn:E; [|discriminate].
         destruct (items_loop lower reserved supported omit_prefix st1 ex cols) as [[l st2]|] eqn:R; [|discriminate].
         injection H as <- <-. constructor.
         * intros x Hx. exact (select_item_carries_name lower reserved st c e it st1 x E Hx).
-        * pose proof (IH _ _ _ _ R ND) as F.
-          destruct (select_item_records lower reserved st c e it st1 E) as (_ & Hother & _).
-          clear - F Hother Hnin. cbn [creq_cid] in Hnin.
-          induction F as [|r it' cols' l' Hr F' IHF]; constructor.
-          -- destruct r as [d e'|d t']; [|exact I]. intros x Hx. apply Hr. rewrite Hother; [exact Hx|].
-             intro Heq. apply Hnin. subst d. left. reflexivity.
-          -- apply IHF. intro Hin. apply Hnin. right. exact Hin.
+        * pose proof (IH _ _ _ _ R) as F.
+          pose proof (fun d x => select_item_keeps_named lower reserved st c e it st1 d x E) as Keep.
+          clear - F Keep.
+          induction F as [|r it' cols' l' Hr F' IHF]; constructor; [|exact IHF].
+          destruct r as [d e'|d t']; [|exact I]. intros x Hx. apply Hr. apply Keep. exact Hx.
       + destruct (xtake ex c) as [o ex1].
         destruct (items_loop lower reserved supported omit_prefix st ex1 cols) as [[l st2]|] eqn:R; [|discriminate].
-        injection H as <- <-. constructor; [exact I | exact (IH _ _ _ _ R ND)].
+        injection H as <- <-. constructor; [exact I | exact (IH _ _ _ _ R)].
   Qed.
 End List_.
 
@@ -286,9 +295,12 @@ Section Compose.
 
   Definition has_support : bool := match supported with Some _ => true | None => false end.
 
-  (* item by item, the emitted list shows what Wildcards.v's reading of (ids, exclusions) shows *)
+  Definition is_star (c : cid) : bool := match orig_of c with Some _ => true | None => false end.
+
+  (* item by item, the emitted list shows what Wildcards.v's reading of (ids, exclusions) shows; a STAR id must not be
+     requested twice (its exclusion set is consumed by the first), other ids may repeat (`select {a, a}`) *)
   Theorem items_show_is_denote cids : forall st ex items st',
-    NoDup cids ->
+    NoDup (filter is_star cids) ->
     (forall c, In c cids -> lookup_ex ex c <> [] -> existsb (fun p : cid * list cid => Nat.eqb (fst p) c) ex = true) ->
     items_loop lower reserved supported omit_prefix st (excluded_of name_of ex) (reqs_of orig_of shape_of table_of cids) = Some (items, st') ->
     items_show orig_of items = denote orig_of has_support (cids, ex).
@@ -296,18 +308,21 @@ Section Compose.
     unfold denote. cbn [fst snd].
     induction cids as [|c cids IH]; intros st ex items st' ND Hkeys H; cbn [reqs_of map items_loop] in H.
     - injection H as <- <-. reflexivity.
-    - apply NoDup_cons_iff in ND as [Hnin ND].
+    - cbn [filter] in ND. unfold is_star in ND at 1.
       destruct (orig_of c) as [orig|] eqn:O.
-      + destruct (xtake_excluded_of name_of ex c) as [X1 (ex' & X2 & X3)].
+      + apply NoDup_cons_iff in ND as [Hnin ND].
+        assert (forall d, In d cids -> d <> c) as Hdc.
+        { intros d Hd Heq. subst d. apply Hnin. apply filter_In. split; [exact Hd | unfold is_star; rewrite O; reflexivity]. }
+        destruct (xtake_excluded_of name_of ex c) as [X1 (ex' & X2 & X3)].
         destruct (xtake (excluded_of name_of ex) c) as [o ex1] eqn:X. cbn [fst snd] in X1, X2. subst ex1.
         fold (reqs_of orig_of shape_of table_of cids) in H.
         destruct (items_loop lower reserved supported omit_prefix st (excluded_of name_of ex') (reqs_of orig_of shape_of table_of cids)) as [[l st2]|] eqn:R; [|discriminate].
         injection H as <- <-. cbn [items_show flat_map item_shows]. rewrite O.
         fold (items_show orig_of l).
         assert (items_show orig_of l = flat_map (shows orig_of has_support ex) cids) as Tail.
-        { rewrite (IH st ex' l st2 ND); [|intros d Hd Hl; destruct (X3 d) as [A B]; [intro; subst; contradiction|]; rewrite B; apply (Hkeys d); [right; exact Hd | rewrite <- A; exact Hl] | exact R].
+        { rewrite (IH st ex' l st2 ND); [|intros d Hd Hl; destruct (X3 d (Hdc d Hd)) as [A B]; rewrite B; apply (Hkeys d); [right; exact Hd | rewrite <- A; exact Hl] | exact R].
           apply flat_map_ext_in'. intros d Hd. unfold shows. destruct (orig_of d); [|reflexivity].
-          destruct (X3 d) as [A _]; [intro; subst; contradiction|]. rewrite A. reflexivity. }
+          destruct (X3 d (Hdc d Hd)) as [A _]. rewrite A. reflexivity. }
         rewrite Tail. cbn [flat_map]. f_equal. unfold shows. rewrite O. f_equal.
         apply filter_ext. intro x. f_equal. unfold has_support.
         destruct supported as [k|].
@@ -338,7 +353,7 @@ Qed.
    SELECT list shows exactly the requested columns (as a set; positions of the non-star columns by items_loop_one_per_column) *)
 Theorem select_list_shows_requested lower reserved k omit_prefix orig_of shape_of table_of name_of cols st items st' :
   wf_cols orig_of [] cols ->
-  NoDup (fst (translate_wildcards cols)) ->
+  NoDup (filter (is_star orig_of) (fst (translate_wildcards cols))) ->
   items_loop lower reserved (Some k) omit_prefix st (excluded_of name_of (snd (translate_wildcards cols)))
              (reqs_of orig_of shape_of table_of (fst (translate_wildcards cols))) = Some (items, st') ->
   forall x, In x (items_show orig_of items) <-> In x (map fst cols).
@@ -353,7 +368,7 @@ Qed.
 (* without the facility nothing requested is lost, but the star may show more (F23) *)
 Theorem select_list_no_loss lower reserved omit_prefix orig_of shape_of table_of name_of cols st items st' :
   wf_cols orig_of [] cols ->
-  NoDup (fst (translate_wildcards cols)) ->
+  NoDup (filter (is_star orig_of) (fst (translate_wildcards cols))) ->
   items_loop lower reserved None omit_prefix st (excluded_of name_of (snd (translate_wildcards cols)))
              (reqs_of orig_of shape_of table_of (fst (translate_wildcards cols))) = Some (items, st') ->
   forall x, In x (map fst cols) -> In x (items_show orig_of items).
